@@ -611,11 +611,20 @@ def check_fill_scope_table(col, repo: Repo):
     col.add("C01.R10", f.short, "mainline-operators", names == ["EventDataset", "SelectMany", "Where"],
             f"operators that define where Fill goes are {names}; Select must not be one (it keeps its source's loop) and "
             "Where/SelectMany/EventDataset must be (they open the if/loop the row lives in)", f.loc)
-    vc = [g for g in repo.functions_named("visit_Call") if g.parent is not None and g.parent.name == "find_fill_scope" or (g.cls is not None and g.cls.name == "find_where")]
+    # the visitor class nested in find_fill_scope (whatever it and its result attribute are called): its visit_Call
+    vc_nodes = [n for k in ast.walk(f.node) if isinstance(k, ast.ClassDef) for n in k.body if isinstance(n, ast.FunctionDef) and n.name == "visit_Call"]
+
+    class _G:
+        def __init__(self, node):
+            self.node = node
+    vc = [_G(n) for n in vc_nodes]
     ok = False
     for g in vc:
         first_guard = [n for n in g.node.body if isinstance(n, ast.If)]
-        ok = bool(first_guard) and src(first_guard[0].test) == "self._node is None" and any(
+        t0 = first_guard[0].test if first_guard else None
+        result_attr = src(t0.left) if isinstance(t0, ast.Compare) and isinstance(t0.ops[0], ast.Is) and src(t0.comparators[0]) == "None" else None
+        assigned_here = result_attr is not None and any(isinstance(a, ast.Assign) and src(a.targets[0]) == result_attr for a in ast.walk(g.node))
+        ok = bool(first_guard) and result_attr is not None and result_attr.startswith("self.") and assigned_here and any(
             isinstance(c, ast.Call) and call_name(c) == "generic_visit" for c in ast.walk(first_guard[0]))
         cpp = any("CPPCodeValue" in src(n) for n in ast.walk(g.node))
         ok = ok and cpp
